@@ -1,9 +1,9 @@
 SPECIFICATION Spec
-CONSTANTS Times <- McTimesS
+CONSTANTS Times <- McTimes
  ExpChoices <- McExp
- OfferMenu <- McMenuS
- MaxBlocks = 3
+ OfferMenu <- McMenu
+ MaxBlocks = 5
  DupCheck = TRUE
- PayloadIdentity = FALSE
+ PayloadIdentity = TRUE
 INVARIANTS AtMostOnce InWindow ForkFree
 CHECK_DEADLOCK FALSE
